@@ -344,14 +344,25 @@ class HarnessError(Exception):
 
 # --------------------------------------------------------------------------- interpreter
 
+def process_policy():
+    """Process-wide settings a library call has no business changing (numpy's floating-point error policy and print options, the
+    warnings filters, the recursion limit, the environment).  Read INSIDE the harness's own errstate / catch_warnings blocks, whose
+    exit would otherwise silently undo a leak."""
+    import os
+    import sys
+    return (tuple(sorted(np.geterr().items())), repr(sorted((k, repr(v)) for k, v in np.get_printoptions().items())),
+            len(warnings.filters), repr(warnings.filters[:3]), sys.getrecursionlimit(), hash(frozenset(os.environ.items())))
+
+
 class Outcome:
-    __slots__ = ('ok', 'value', 'exc', 'warnings')
+    __slots__ = ('ok', 'value', 'exc', 'warnings', 'policy_changed')
 
     def __init__(self, ok, value=None, exc=None, warns=()):
         self.ok = ok
         self.value = value
         self.exc = exc
         self.warnings = warns
+        self.policy_changed = None
 
     def brief(self, dig):
         if self.ok:
@@ -426,6 +437,8 @@ class Interp:
         if isinstance(v, list):
             return [self.resolve(x) for x in v]
         if isinstance(v, dict):
+            if '$ptype' in v:
+                return self.L.ptype(v['$ptype'])         # a plane-type OBJECT (lentil.none, lentil.pupil, ...), not its name
             if '$tuple' in v:
                 return tuple(self.resolve(x) for x in v['$tuple'])
             if any(k.startswith('$') for k in v):
@@ -483,13 +496,19 @@ class Interp:
         with warnings.catch_warnings(record=True) as wl:
             warnings.simplefilter('always')
             with np.errstate(all='ignore'):
+                pol0 = process_policy()
                 try:
                     val = fn(self.L, *args, **kw)
-                    return Outcome(True, val, None, tuple(type(w.message).__name__ for w in wl))
+                    out = Outcome(True, val, None, tuple(type(w.message).__name__ for w in wl))
                 except HarnessError:
                     raise
                 except Exception as e:
-                    return Outcome(False, None, e, tuple(type(w.message).__name__ for w in wl))
+                    out = Outcome(False, None, e, tuple(type(w.message).__name__ for w in wl))
+                pol1 = process_policy()
+                if pol1 != pol0:
+                    out.policy_changed = [n for n, a, b in zip(('numpy error policy', 'numpy print options', 'warnings filters', 'warnings filters',
+                                                                 'recursion limit', 'environment'), pol0, pol1) if a != b][0]
+                return out
 
     def step(self, i, ev):
         if self.hooks is not None:
